@@ -18,14 +18,17 @@ def c11Shared : RouteCfg :=
     regSame := true, keepsAdded := true, keepsModifiedDefault := true, keepsRemoved := true,
     userRowCanon := .keep, dfltRowCanon := .keep, keepsUnitSystem := true }
 
-/-- the present code (pinned tree + the `fix:` commits up to 467aa66) -/
+/-- the present code (pinned tree + the `fix:` commits up to 2f9afcb).  `unitByDisplayStr` is
+    `false` on every route since acfd34f: the routes that send `str(units)` (pickle of an array,
+    savetxt, `Unit(str(u))`) still do, but the parser now reads `Δ°C` / `Δ°F` back; the flag stands
+    for "the string form cannot name delta_degC / delta_degF" and is probed with exactly that unit. -/
 def c11AsIs : RouteTable := [
   -- `(str(self.units), self.units.registry.lut)` pickled; `_correct_old_unit_registry` re-adds the
   -- default symbols that are missing; a NEW `UnitRegistry(lut=…, add_default_symbols=False)` —
   -- `unit_system` not passed; `Unit(str, registry=…)` recomputes the unit from the unpickled table,
   -- whose sympy symbols are equal but not identical to the singletons
   (.pickleArray, { c11Shared with
-      unitSame := false, unitByDisplayStr := true, unitDataCarried := false,
+      unitSame := false, unitDataCarried := false,
       unitCanon := .lose, regSame := false, keepsRemoved := false, userRowCanon := .lose, dfltRowCanon := .lose,
       keepsUnitSystem := false }),
   -- default slot pickling: every slot travels, the registry object included (its `__dict__`)
@@ -52,11 +55,11 @@ def c11AsIs : RouteTable := [
   -- default registry
   (.saveLoadTxt, { c11Shared with
       keepsDtype := false, keepsClass := false, unitSame := false,
-      unitByDisplayStr := true, unitDataCarried := false, unitCanon := .intern, regSame := false,
+      unitDataCarried := false, unitCanon := .intern, regSame := false,
       keepsAdded := false, keepsModifiedDefault := false, keepsRemoved := false,
       dfltRowCanon := .intern, keepsUnitSystem := false }),
   (.unitOfStr, { c11Shared with
-      unitSame := false, unitByDisplayStr := true, unitDataCarried := false,
+      unitSame := false, unitDataCarried := false,
       unitCanon := .intern }),
   -- `to_json` writes `str(dimensions)`, `from_json` reads it back with
   -- `sympify(…, locals=vars(unyt.dimensions))`: the singletons; missing defaults re-added; no `unit_system`
